@@ -31,9 +31,6 @@ def GammaF (b : Bounds) (a : Int) : Prop := 0 ≤ a ∧ b.MeansF a
 /-- concretisation, non-fungible -/
 def GammaN (b : Bounds) (ids : List Nat) : Prop := ids.Nodup ∧ b.MeansNF ids
 
-/-- `IndexSet` invariant of a bounds value used for a non-fungible resource -/
-def WFn (b : Bounds) : Prop := b.required.Nodup
-
 /-! ## add -/
 
 /-- **add_sound (non-fungible)**: disjoint concrete id sets inside `b1`, `b2` ⇒ their union is inside
@@ -61,7 +58,7 @@ theorem add_sound_nf (b1 b2 b : Bounds) (ids1 ids2 : List Nat)
         injection h with h; subst h
         obtain ⟨rfl, hdis⟩ := insertAllNew_ok _ _ hr
         have hreqn : (b1.required ++ b2.required).Nodup :=
-          List.nodup_append.mpr ⟨w1, w2, fun a ha b hb hab => hdis b hb (hab ▸ ha)⟩
+          List.nodup_append.mpr ⟨w1.1, w2.1, fun a ha b hb hab => hdis b hb (hab ▸ ha)⟩
         apply normalize_sound_nf _ hreqn _ hn
         have hlen : fromLen (ids1 ++ ids2).length = fromLen ids1.length + fromLen ids2.length := by
           rw [List.length_append, fromLen_add]
@@ -245,7 +242,7 @@ theorem take_sound_nf (b rem taken : Bounds) (ids raw : List Nat) (w : WFn b) (g
       · cases h
       · injection h with h; injection h with h1 h2; subst h1; subst h2
         refine ⟨⟨nid.filter _, ?_⟩, ?_⟩
-        · apply normalize_sound_nf _ (nodup_difference w) _ (nid.filter _)
+        · apply normalize_sound_nf _ (nodup_difference w.1) _ (nid.filter _)
           refine ⟨?_, ?_, ?_, trivial⟩
           · show (lowerTake b.lower _).Sat _
             rw [hfl]; exact lowerTake_sound la (fromLen_nonneg _) (fromLen_le.mpr hle)
@@ -271,7 +268,7 @@ theorem take_sound_nf (b rem taken : Bounds) (ids raw : List Nat) (w : WFn b) (g
         · cases h
         · injection h with h; injection h with h1 h2; subst h1; subst h2
           refine ⟨⟨nid.filter _, ?_⟩, ?_⟩
-          · apply normalize_sound_nf _ (nodup_difference w) _ (nid.filter _)
+          · apply normalize_sound_nf _ (nodup_difference w.1) _ (nid.filter _)
             refine ⟨?_, ?_, ?_, ?_⟩
             · show (lowerTake b.lower _).Sat _
               rw [hfl]; exact lowerTake_sound la (fromLen_nonneg _) (fromLen_le.mpr hle)
@@ -311,6 +308,19 @@ theorem take_ids_error_not_complete :
 
 /-! ## handle_assertion -/
 
+/-- `AssertionCannotBeSatisfied` is likewise NOT complete: bounds "at most 3 of {#1#,#2#,#3#}" refined
+by the assertion "at most 3 of {#3#,#4#,#5#}" are rejected although the balance {#3#} satisfies both
+(the upper bound 3 is compared with the size of the intersected allowlist instead of being capped by
+it).  Over-rejection only; soundness is not affected. -/
+theorem assert_error_not_complete :
+    ∃ (b a : Bounds) (ids : List Nat), GammaN b ids ∧ a.MeansNF ids ∧
+      handleAssertion b a = .error .assertionCannotBeSatisfied :=
+  ⟨⟨[], .inclusive 0, .inclusive (fromLen 3), .allowlist [1, 2, 3]⟩,
+   ⟨[], .inclusive 0, .inclusive (fromLen 3), .allowlist [3, 4, 5]⟩, [3],
+   ⟨by decide, (general_validate_nf_iff _ _).mp (by decide)⟩,
+   (general_validate_nf_iff _ _).mp (by decide), rfl⟩
+
+
 /-- **assert_sound (non-fungible)**: if the concrete balance is inside the current bounds and inside
 the assertion's bounds (i.e. the assertion passed at run time), it is inside the refined bounds. -/
 theorem assert_sound_nf (b a b' : Bounds) (ids : List Nat) (w : WFn b) (g : GammaN b ids)
@@ -332,7 +342,7 @@ theorem assert_sound_nf (b a b' : Bounds) (ids : List Nat) (w : WFn b) (g : Gamm
     · split at hh
       · cases hh
       · injection hh with hh; subst hh
-        apply normalize_sound_nf _ (nodup_extend _ _ w) _ nid
+        apply normalize_sound_nf _ (nodup_extend _ _ w.1) _ nid
         refine ⟨lowerMax_sound lb la, upperMin_sound ub ua, ?_, hal⟩
         intro x hx
         rcases (mem_extend _ _).mp hx with k | k
@@ -546,5 +556,188 @@ theorem ofConstraint_sound_f_partial (c : Constraint) (a : Bounds) (x : Int) (hx
     · cases h
     · injection h with h; subst h
       exact ⟨normalize_sound_f g (hw g rfl) x hx hm, normalize_WFf g (hw g rfl)⟩
+
+
+/-! ## the `IndexSet` invariant is kept, and soundness over op sequences -/
+
+theorem add_WFn (b1 b2 b : Bounds) (w1 : WFn b1) (w2 : WFn b2) (h : add b1 b2 = .ok b) : WFn b := by
+  unfold add at h
+  cases hl : lowerAdd b1.lower b2.lower with
+  | error e => rw [hl] at h; cases h
+  | ok lo =>
+    rw [hl] at h; dsimp only at h
+    cases hu : upperAdd b1.upper b2.upper with
+    | error e => rw [hu] at h; cases h
+    | ok up =>
+      rw [hu] at h; dsimp only at h
+      cases hr : insertAllNew b1.required b2.required with
+      | error e => rw [hr] at h; cases h
+      | ok req =>
+        rw [hr] at h; dsimp only at h
+        injection h with h; subst h
+        obtain ⟨rfl, hdis⟩ := insertAllNew_ok _ _ hr
+        apply normalize_WFn
+        refine ⟨List.nodup_append.mpr ⟨w1.1, w2.1, fun a ha b hb hab => hdis b hb (hab ▸ ha)⟩, ?_⟩
+        intro l hl'
+        cases h1 : b1.allowed with
+        | any => rw [h1] at hl'; cases hl'
+        | allowlist la =>
+          cases h2 : b2.allowed with
+          | any => rw [h1, h2] at hl'; cases hl'
+          | allowlist lb =>
+            rw [h1, h2] at hl'
+            simp only [AllowedIds.allowlist.injEq] at hl'
+            subst hl'
+            exact nodup_extend _ _ (w1.2 la h1)
+
+theorem take_ids_WFn (b rem taken : Bounds) (raw : List Nat) (w : WFn b)
+    (h : take b (.ids raw) = .ok (rem, taken)) : WFn rem ∧ WFn taken := by
+  unfold take at h
+  dsimp only at h
+  cases hu : upperTake b.upper (fromLen (dedup raw).length) with
+  | error e => rw [hu] at h; cases h
+  | ok up =>
+    rw [hu] at h; dsimp only at h
+    have htaken : WFn (exactNF (dedup raw)) := by
+      refine ⟨nodup_dedup _, ?_⟩
+      intro l hl
+      simp only [exactNF, AllowedIds.allowlist.injEq] at hl
+      subst hl; exact nodup_dedup _
+    cases hal : b.allowed with
+    | any =>
+      rw [hal] at h; dsimp only at h
+      split at h
+      · cases h
+      · injection h with h; injection h with h1 h2; subst h1; subst h2
+        exact ⟨normalize_WFn _ ⟨nodup_difference w.1, by intro l hl; cases hl⟩, htaken⟩
+    | allowlist al =>
+      rw [hal] at h; dsimp only at h
+      by_cases hs : (!isSubset (dedup raw) al) = true
+      · rw [if_pos hs] at h; cases h
+      · rw [if_neg hs] at h; dsimp only at h
+        split at h
+        · cases h
+        · injection h with h; injection h with h1 h2; subst h1; subst h2
+          refine ⟨normalize_WFn _ ⟨nodup_difference w.1, ?_⟩, htaken⟩
+          intro l hl
+          simp only [AllowedIds.allowlist.injEq] at hl
+          subst hl
+          exact nodup_difference (w.2 al hal)
+
+theorem assert_WFn (b a b' : Bounds) (w : WFn b) (wa : WFn a) (h : handleAssertion b a = .ok b') :
+    WFn b' := by
+  unfold handleAssertion at h
+  dsimp only at h
+  split at h
+  · cases h
+  · rename_i al heq
+    have hal : ∀ l, al = .allowlist l → l.Nodup := by
+      cases haa : a.allowed with
+      | any => rw [haa] at heq; injection heq with heq; subst heq; exact w.2
+      | allowlist l0 =>
+        rw [haa] at heq
+        dsimp only at heq
+        split at heq
+        · cases heq
+        · cases hba : b.allowed with
+          | any =>
+            rw [hba] at heq; injection heq with heq; subst heq
+            intro l hl; simp only [AllowedIds.allowlist.injEq] at hl; subst hl; exact wa.2 l0 haa
+          | allowlist x =>
+            rw [hba] at heq
+            injection heq with heq; subst heq
+            intro l hl; simp only [AllowedIds.allowlist.injEq] at hl; subst hl
+            exact nodup_intersection (w.2 x hba)
+    have fin : ∀ (tooMany : Bool),
+        (if (lowerMax b.lower a.lower).equiv > (upperMin b.upper a.upper).equiv then Except.error BErr.assertionCannotBeSatisfied
+         else if tooMany = true then Except.error BErr.assertionCannotBeSatisfied
+         else Except.ok (General.normalize ⟨extend b.required a.required, lowerMax b.lower a.lower,
+                upperMin b.upper a.upper, al⟩)) = Except.ok b' → WFn b' := by
+      intro tm hh
+      split at hh
+      · cases hh
+      · split at hh
+        · cases hh
+        · injection hh with hh; subst hh
+          exact normalize_WFn _ ⟨nodup_extend _ _ w.1, hal⟩
+    exact fin _ h
+
+/-- operations on the tracked bounds of one non-fungible resource (the worktop entry of that
+resource as the visitor drives it) -/
+inductive OpN where
+  | add (amount : Bounds) (c : List Nat)
+  | takeIds (raw : List Nat)
+  | takeAll
+  | assertB (a : Bounds)
+
+/-- abstract step = what the analyser does -/
+def stepA (b : Bounds) : OpN → Except BErr Bounds
+  | .add amount _ => add b amount
+  | .takeIds raw => (match take b (.ids raw) with | .ok (rem, _) => .ok rem | .error e => .error e)
+  | .takeAll => .ok zero
+  | .assertB a => handleAssertion b a
+
+def runA : Bounds → List OpN → Except BErr Bounds
+  | b, [] => .ok b
+  | b, op :: rest => match stepA b op with | .ok b' => runA b' rest | .error e => .error e
+
+/-- concrete step = a run-time execution that does not fail: an addition of new ids described by
+`amount`, a take of ids that are present, a take-all, an assertion that passes -/
+inductive StepC : List Nat → OpN → List Nat → Prop where
+  | add {ids c amount} : GammaN amount c → WFn amount → (∀ x ∈ ids, x ∉ c) → StepC ids (.add amount c) (ids ++ c)
+  | takeIds {ids raw} : (∀ x ∈ raw, x ∈ ids) →
+      StepC ids (.takeIds raw) (ids.filter (fun x => !(dedup raw).contains x))
+  | takeAll {ids} : StepC ids .takeAll []
+  | assertB {ids a} : a.MeansNF ids → WFn a → StepC ids (.assertB a) ids
+
+inductive RunC : List Nat → List OpN → List Nat → Prop where
+  | nil {ids} : RunC ids [] ids
+  | cons {ids ids1 ids2 op rest} : StepC ids op ids1 → RunC ids1 rest ids2 → RunC ids (op :: rest) ids2
+
+/-- **chain_sound (non-fungible)** — the single-resource core of `mini_analysis_sound`: for EVERY
+sequence of add / take-ids / take-all / assert operations, if the analyser does not reject the
+sequence then every concrete execution that does not fail ends with a balance inside the bounds the
+analyser ends with (induction over the op sequence; the `IndexSet` invariant is carried along). -/
+theorem chain_sound_nf : ∀ (ops : List OpN) (b b' : Bounds) (ids ids' : List Nat),
+    WFn b → GammaN b ids → runA b ops = .ok b' → RunC ids ops ids' → GammaN b' ids' ∧ WFn b' := by
+  intro ops
+  induction ops with
+  | nil =>
+    intro b b' ids ids' w g h hc
+    simp only [runA] at h; injection h with h; subst h
+    cases hc; exact ⟨g, w⟩
+  | cons op rest ih =>
+    intro b b' ids ids' w g h hc
+    simp only [runA] at h
+    cases hs : stepA b op with
+    | error e => rw [hs] at h; cases h
+    | ok b1 =>
+      rw [hs] at h; dsimp only at h
+      cases hc with
+      | cons hstep hrest =>
+        have key : ∀ ids1, StepC ids op ids1 → GammaN b1 ids1 ∧ WFn b1 := by
+          intro ids1 hst
+          cases hst with
+          | add ga wa hd =>
+            simp only [stepA] at hs
+            exact ⟨add_sound_nf _ _ _ _ _ w wa g ga hd hs, add_WFn _ _ _ w wa hs⟩
+          | takeIds hsub =>
+            simp only [stepA] at hs
+            split at hs
+            · rename_i rem taken ht
+              injection hs with hs; subst hs
+              exact ⟨(take_sound_nf _ _ _ _ _ w g hsub ht).1, (take_ids_WFn _ _ _ _ w ht).1⟩
+            · cases hs
+          | takeAll =>
+            simp only [stepA] at hs; injection hs with hs; subst hs
+            exact ⟨(take_all_sound b).2.2, ⟨List.nodup_nil, by intro l hl; simp only [zero, AllowedIds.allowlist.injEq] at hl; subst hl; exact List.nodup_nil⟩⟩
+          | assertB ga wa =>
+            simp only [stepA] at hs
+            exact ⟨assert_sound_nf _ _ _ _ w g ga hs, assert_WFn _ _ _ w wa hs⟩
+        obtain ⟨g1, w1⟩ := key _ hstep
+        exact ih b1 b' _ ids' w1 g1 h hrest
+
+/-- non-vacuity: a three-step chain accepted by the analyser with a concrete run -/
+example : ∃ b, runA zero [.add (exactNF [1, 2]) [1, 2], .takeIds [2], .assertB (atLeastNF [1])] = .ok b := ⟨_, rfl⟩
 
 end Radix.ResBounds
